@@ -1562,6 +1562,33 @@ fn main() {
             let _ = owner.join();
             println!("open_after_close={}", if raindb::DB::open(o.clone()).is_ok() { "ok" } else { "err" });
         }
+        // level_iter ops targetU:seq shape uk:seq:op:vv ... : cursor of the concatenating iterator over a level whose files hold
+        // shape[i] consecutive entries each
+        "level_iter" => {
+            let t = key(a[2]);
+            let shape: Vec<usize> = a[3].split(',').map(|x| num(x) as usize).collect();
+            let mut files: Vec<Vec<(Vec<u8>, u64, bool, Vec<u8>)>> = vec![];
+            let mut idx = 4;
+            for c in &shape {
+                let mut f = vec![];
+                for _ in 0..*c {
+                    let p: Vec<&str> = a[idx].split(':').collect();
+                    f.push((hex(p[0]), num(p[1]), p[2] == "1", hex(p[3])));
+                    idx += 1;
+                }
+                files.push(f);
+            }
+            let fs = std::sync::Arc::new(raindb::fs::InMemoryFileSystem::new());
+            let o = v::options_with(fs, 400);
+            let ops: Vec<&str> = a[1].split(',').collect();
+            match v::level_iter_cursor(&o, &files, &ops, (&t.0, t.1)) {
+                Some(c) => println!(
+                    "cursor={}",
+                    c.iter().map(|x| match x { Some((k, s, val)) => format!("{}:{}:{:02x}", tohex(k), s, val), None => "none".to_string() }).collect::<Vec<_>>().join(",")
+                ),
+                None => println!("cursor=build-failed"),
+            }
+        }
         "vs_recover" => {
             // a database is created, written and closed; a fresh version set recovers from its files
             use raindb::WriteOptions;
